@@ -104,6 +104,28 @@ def main(tier):
                                              'thread raised or returned something else than the sequential text',
                                    'results': [str(x)[:200] for x in res], 'expected': ref})
         run.coverage['shared_object_schedules'] = nshared
+        # preemptions inside the layout algorithm and its look-aheads (no state is shared between calls)
+        nlay = 0
+        for k in range(120 if tier == 'quick' else 2500):
+            nth = r.choice([2, 2, 3])
+            s, last = [], None
+            for _k in range(r.randint(2, 8)):
+                t = r.choice([x for x in range(nth) if x != last])
+                s += [t] * r.randint(1, 120)
+                last = t
+            widths = [r.choice([20, 40, 60]) for _ in range(nth)]
+            res, ref = sched.run_layout(nth, list(s), widths)
+            letters = [outcome_letter(res[i], ref[i]) for i in range(nth)]
+            nlay += 1
+            run.count(1)
+            if any(x != 'P' for x in letters):
+                viol += 1
+                if viol <= 3:
+                    run.violation({'kind': 'layout', 'threads': nth, 'schedule': s, 'widths': widths, 'outcomes': letters,
+                                   'detail': 'threads laying out different values: preempted inside the layout algorithm / '
+                                             'a fitting predicate, a thread returned something else than its sequential text',
+                                   'results': [str(x)[:200] for x in res], 'expected': ref})
+        run.coverage['layout_region_schedules'] = nlay
         dis = 0
         if reqs:
             out = run_driver(reqs, shards=1)
@@ -127,7 +149,9 @@ def main(tier):
             "model's steps and the extracted interleaving model is run on that schedule; outcomes compared. "
             'Also (oracle only): 2-3 threads printing values that SHARE sub-objects, gated on the line events of '
             '_run_pretty (where visits start and end): every single-preemption schedule up to 70 (thorough: 140) lines '
-            'and seeded random interleavings; same or different widths per thread. '
+            'and seeded random interleavings; same or different widths per thread; 2-3 threads laying out different values, '
+            'gated on the line events of best_layout and both fitting predicates (seeded random interleavings, runs of '
+            '1..120 lines). '
             'non-trivial = runs in which both/all threads executed traced lines before the drain')
     return run.finish()
 
@@ -138,6 +162,11 @@ def replay(path):
     if 'schedule' not in p:
         print(json.dumps(p, indent=1)[:3000])
         return 1
+    if p.get('kind') == 'layout':
+        res, ref = sched.run_layout(p['threads'], p['schedule'], p['widths'])
+        letters = [outcome_letter(res[i], ref[i]) for i in range(p['threads'])]
+        print(letters, [str(x)[:150] for x in res])
+        return 0 if all(x == 'P' for x in letters) else 1
     if p.get('kind') == 'shared':
         res, ref = sched.run_shared(p['threads'], p['schedule'], p['cfgs'])
         letters = [outcome_letter(res[i], ref[i]) for i in range(p['threads'])]
